@@ -243,6 +243,34 @@ def calls(seed: int) -> dict[str, Callable[[], Any]]:
     c["object|PreparedPoint.mult|0"] = lambda: pp.mult(0)
     c["object|musig2 session.partial_sig_verify_"] = lambda: musig2.partial_sig_verify_(psig, pubn[0], pks[0], ctx)
     c["object|musig2 session.partial_sig_agg"] = lambda: musig2.partial_sig_agg([psig, psig, psig], ctx).serialize()
+    # a partial signature checked against a well-formed key that is not of the session, a nonce that is not the signer's, a signature out of range
+    foreign_pk = musig2.individual_pub_key(0xF0F0F0F)
+    c["object|musig2 session.partial_sig_verify_|a key outside the session"] = lambda: musig2.partial_sig_verify_(psig, pubn[0], foreign_pk, ctx)
+    c["object|musig2 session.partial_sig_verify_|another signer's nonce"] = lambda: musig2.partial_sig_verify_(psig, pubn[1], pks[0], ctx)
+    c["object|musig2 session.partial_sig_verify_|another signer's key"] = lambda: musig2.partial_sig_verify_(psig, pubn[0], pks[1], ctx)
+    # (the same over a 32-byte message and no adaptor, the one shape the bindings serve)
+    ctx32 = musig2.SessionContext(agg, pks, [], [], h32)
+    psig32 = musig2.sign(bytearray(nonces[0][0]), d[0], ctx32)
+    for label, thunk in (("its own", lambda: musig2.partial_sig_verify_(psig32, pubn[0], pks[0], ctx32)), ("a key outside the session", lambda: musig2.partial_sig_verify_(psig32, pubn[0], foreign_pk, ctx32)),
+                         ("another signer's key", lambda: musig2.partial_sig_verify_(psig32, pubn[0], pks[1], ctx32)), ("another signer's nonce", lambda: musig2.partial_sig_verify_(psig32, pubn[1], pks[0], ctx32))):
+        c[f"object|musig2 session over 32 bytes.partial_sig_verify_|{label}"] = thunk
+    # objects with a life cycle, built on the arm that then serves them: used, wiped (explicitly, and by leaving a with block), used again
+    def wiped(make: Callable[[], Any], use: Callable[[Any], Any], how: str) -> Any:
+        s_ = make()
+        first = use(s_)
+        if how == "wipe":
+            s_.wipe()
+        else:
+            with s_:
+                pass
+        return first, use(s_)
+
+    for how in ("wipe", "with"):
+        c[f"life|ssa.Signer built here, used, {how}, used again"] = lambda how=how: wiped(lambda: ssa.Signer(q), lambda s_: s_.sign_(h32, bytes(32)), how)
+        c[f"life|ssa.Signer built here, used on a long message, {how}, used again"] = lambda how=how: wiped(lambda: ssa.Signer(q), lambda s_: s_.sign_(b"any length message", bytes(32)), how)
+        c[f"life|dsa.Signer built here, used, {how}, used again"] = lambda how=how: wiped(lambda: dsa.Signer(q), lambda s_: s_.sign_(h32), how)
+    c["life|ssa.Signer wiped before any use"] = lambda: (lambda s_: (s_.wipe(), s_.sign_(h32, bytes(32)))[1])(ssa.Signer(q))
+    c["life|dsa.Signer wiped before any use"] = lambda: (lambda s_: (s_.wipe(), s_.sign_(h32))[1])(dsa.Signer(q))
     # ---- the script engine: signature checks and whole-transaction verdicts ----
     for name, thunk in engine_calls(q, seed).items():
         c[name] = thunk
